@@ -190,7 +190,11 @@ func MakeHdr(kind string, sid uint8, idx int) *astits.PESHeader {
 			HasPSTDBuffer: true, PSTDBufferScale: 1, PSTDBufferSize: 0x1555,
 			HasExtension2: true, Extension2Data: []byte{0xa1, 0xa2, 0xa3}, Extension2Length: 3}
 	default:
-		panic("unknown hdr kind " + kind)
+		var n int
+		if _, err := fmt.Sscanf(kind, "s%d", &n); err != nil {
+			panic("unknown hdr kind " + kind)
+		}
+		h.OptionalHeader = hdrShape(n, idx)
 	}
 	return h
 }
